@@ -181,7 +181,7 @@ class ExecGen:
             return call('dataFilter', rows, s(text))
         if kind == 'calc':
             return call('dataCalculatedField', rows, s('rc'), s(text))
-        variables = var('vars0')
+        variables = var(r.choice(['vars0', 'vars0', 'vars1']))
         if kind == 'filter_vars':
             return call('dataFilter', rows, s(text), variables)
         return call('dataCalculatedField', rows, s('rc'), s(text), variables)
@@ -361,7 +361,7 @@ class ExecGen:
             lines.append('endfunction')
         lines.extend(self.structured(scope, 0, r.randint(2, self.k['max_top']), False))
         plan = {'debug': False, 'has_log': True, 'has_fetch': True, 'source': '\n'.join(lines) + '\n', 'model': [],
-                'globals': {'rows0': [{'ra': 1, 'rb': 2}], 'rows1': [], 'vars0': {'vx': 1}}, 'answers': self.answers,
+                'globals': {'rows0': [{'ra': 1, 'rb': 2}], 'rows1': [], 'vars0': {'vx': 1}, 'vars1': {}}, 'answers': self.answers,
                 'exprs': self.exprs, 'files': {}, 'faults': [], 'fetch_faults': []}
         return plan
 
@@ -405,7 +405,7 @@ class ExecGen:
             elif style < 0.92:
                 ref = f'http://other/x{ix % 2}/{fname}'
             else:
-                ref = (fname,)   # system include
+                ref = (r.choice([fname, fname, f'pkg{ix % 2}/{fname}', f'pkg0/sub/{fname}']),)   # system include
             if isinstance(ref, tuple):
                 prefix = self.k.get('system_prefix')
                 location = R.ref_resolve(prefix, ref[0]) if prefix is not None else \
@@ -523,6 +523,7 @@ class ExecGen:
             'rows0': [{'ra': 1, 'rb': 2}, {'ra': 0, 'rb': 5}, {'ra': 3, 'rb': 0}][:r.randint(0, 3)],
             'rows1': [{'ra': r.randint(0, 3)} for _ in range(r.randint(0, 2))],
             'vars0': {'vx': 1},
+            'vars1': {},
         }
         plan['answers'] = self.answers
         plan['exprs'] = self.exprs
